@@ -55,6 +55,9 @@ class DP(ASTNode):
     def __len__(self) -> int:  # a container-like node: falsy in a boolean context while `items` is empty (it may still hold `one`)
         return len(self.items)
 
+    def __iter__(self):  # container-like: iterating over the node yields its `items`
+        return iter(self.items)
+
     def __post_init__(self) -> None:
         ASTNode.__post_init__(self)
         if self.tag == -1:
@@ -293,7 +296,11 @@ def check_world(rec, d, share, okind, setup, builder=None):
     orig_nodes = walk(root)
     orig_ids = {id(n) for n in orig_nodes}
     reg_orig_idstrings = {n.id for n in orig_nodes if registered_as_itself(n)}
-    dup = root.duplicate()
+    try:
+        dup = root.duplicate()
+    except Exception as e:  # noqa: BLE001
+        bad("duplicate|raises", f"duplicate() of a valid tree raised {type(e).__name__}: {str(e)[:150]}")
+        return
     dnodes = walk(dup)
     if len(dnodes) != len(orig_nodes):
         bad("duplicate|shape", "duplicate has another number of positions")
